@@ -68,6 +68,10 @@ def parseAns (s : String) : Option AnsRR :=
     let t ← t.toNat?
     let c ← c.toNat?
     some { owner := str o, rtype := t, covered := c }
+  | [o, t, c, _target] => do
+    let t ← t.toNat?
+    let c ← c.toNat?
+    some { owner := str o, rtype := t, covered := c }
   | _ => none
 
 def keptIdx {α : Type} (keep : α → Bool) (l : List α) : List String :=
